@@ -27,3 +27,5 @@ void h_read_cancel(void) { nni_aio *aio; void *arg; nng_err rv; VP_HAVOC_GHOSTS(
 void h_cancel_close(void) { nni_aio *aio; void *arg; nng_err rv; VP_HAVOC_GHOSTS(); ws_cancel_close(aio, arg, rv); VP_CANARY(); }
 void h_close_error(void) { nni_ws *ws; uint16_t code; VP_HAVOC_GHOSTS(); ws_close_error(ws, code); VP_CANARY(); }
 void h_str_close(void) { void *arg; VP_HAVOC_GHOSTS(); ws_str_close(arg); VP_CANARY(); }
+void h_start_write(void) { nni_ws *ws; VP_HAVOC_GHOSTS(); ws_start_write(ws); VP_CANARY(); }
+void h_write_cb(void) { void *arg; VP_HAVOC_GHOSTS(); ws_write_cb(arg); VP_CANARY(); }
